@@ -27,6 +27,7 @@ META["claim"] += " " + "Also: explicit 16/64-bit boundary lengths (126..65535, 6
 META["claim"] += " " + 'Round 4: frames of 2^20..2^24 (+-3) and odd multi-megabyte sizes, masked and unmasked; ambient conditions (trace, locks off, TLS transport, dispatcher, high descriptor numbers) drawn per connection.'
 META["claim"] += " " + 'Round 5: frames declaring 2^31+5 ... 2^63-1 payload bytes of which only a few arrive before the end of the stream - nothing is delivered.'
 META["claim"] += " " + 'Rounds 6-7: ambient warnings-as-errors / thread hops / 1-0 spellings on every connection; two connections read by two threads with every repository line of either reader as the preemption point (payloads 100 ... 70000 bytes): no byte of one connection in a frame of the other.'
+META["claim"] += " " + 'Round 8: one connection read in several message-level styles call by call; constructor options passed by position.'
 
 SENT = b"\x5a\xa5SENTINEL"
 
